@@ -57,6 +57,10 @@ pub enum K {
     SetTimes,
     Extents,
     Remount,
+    /// macro: create a file (kept in a slot), write to it once or twice, then flush / close / leave open
+    NewFileWritten,
+    /// macro: open an existing path (kept in a slot), seek, read
+    OpenSeekRead,
 }
 
 #[derive(Clone, Debug)]
@@ -97,6 +101,7 @@ impl GenCfg {
                 (K::Rename, 16),
                 (K::Remount, 1),
                 (K::Tick, 1),
+                (K::NewFileWritten, 4),
             ],
             presets: (0..PRESETS.len()).collect(),
             tiny_free_pct: 25,
@@ -125,6 +130,8 @@ impl GenCfg {
                 (K::Extents, 2),
                 (K::Remount, 1),
                 (K::Tick, 1),
+                (K::NewFileWritten, 10),
+                (K::OpenSeekRead, 6),
             ],
             invalid_names: false,
             rich_names: false,
@@ -153,6 +160,8 @@ impl GenCfg {
                 (K::Rename, 10),
                 (K::Remount, 1),
                 (K::Tick, 1),
+                (K::NewFileWritten, 10),
+                (K::OpenSeekRead, 3),
             ],
             tiny_free_pct: 50,
             ..GenCfg::namespace()
@@ -305,15 +314,27 @@ pub fn seek_off(x: i64, n: u32, cs: u32) -> (u8, i64) {
     (whence, off)
 }
 
-pub fn decode_op(gc: &GenCfg, nt: &NameTable, cs: u32, r: &RawOp) -> Op {
+fn biased(sel: u16, table: &[(u8, u32)]) -> u8 {
+    let total: u32 = table.iter().map(|t| t.1).sum();
+    let t = (sel as u32 * total) >> 16;
+    let mut acc = 0;
+    for (v, w) in table {
+        acc += w;
+        if t < acc {
+            return *v;
+        }
+    }
+    table[table.len() - 1].0
+}
+
+pub fn decode_op(gc: &GenCfg, nt: &NameTable, cs: u32, r: &RawOp) -> Vec<Op> {
     let k = pick_kind(&gc.weights, r.kind);
-    let via = (r.d & 0x7) as u8; // 0 = root (most likely after shrinking), 1..=4 dir slots, 5..7 -> root
-    let via = if via > 4 { 0 } else { via };
-    let keep = ((r.d >> 3) & 0x7) as u8;
-    let keep = if keep > 4 { 0 } else { keep };
-    let h = ((r.d >> 6) & 0x3) as u8;
+    // slot choices are biased towards the first slots so that handle ops usually find an open handle
+    let via = biased(r.d.wrapping_mul(40503), &[(0, 60), (1, 22), (2, 10), (3, 5), (4, 3)]);
+    let keep = biased(r.d.wrapping_mul(25173).wrapping_add(13849), &[(0, 30), (1, 38), (2, 20), (3, 8), (4, 4)]);
+    let h = biased(r.d.wrapping_mul(30011).wrapping_add(7), &[(0, 58), (1, 25), (2, 11), (3, 6)]);
     let shape = r.d.rotate_left(7) ^ (r.n as u16);
-    match k {
+    let one = match k {
         K::List => Op::List { via },
         K::Stats => Op::Stats,
         K::Status => Op::Status,
@@ -344,8 +365,35 @@ pub fn decode_op(gc: &GenCfg, nt: &NameTable, cs: u32, r: &RawOp) -> Op {
         K::SetTimes => Op::SetTimes { h, which: (r.a % 3) as u8, ms: (r.x as u64) % Ts::MAX_MS },
         K::Extents => Op::Extents { h },
         K::Remount => Op::Remount { how: (r.a & 1) as u8 },
-    }
+        K::NewFileWritten => {
+            let slot = keep.max(1);
+            let hh = slot - 1;
+            let mut v = vec![Op::CreateFile { via, path: nt.path(r.a, r.b, r.c, shape, gc.max_depth), keep: slot }];
+            v.push(Op::Write { h: hh, len: io_len(r.n, cs, gc.max_io_pct), seed: (r.a >> 8) as u8 });
+            if r.x & 1 != 0 {
+                v.push(Op::Write { h: hh, len: io_len(r.n.rotate_left(9), cs, gc.max_io_pct), seed: (r.b >> 8) as u8 });
+            }
+            match (r.x >> 1) & 3 {
+                0 => v.push(Op::Flush { h: hh }),
+                1 => v.push(Op::CloseFile { h: hh }),
+                _ => {}
+            }
+            return v;
+        }
+        K::OpenSeekRead => {
+            let slot = keep.max(1);
+            let hh = slot - 1;
+            let (whence, off) = seek_off(r.x, r.n, cs);
+            return vec![
+                Op::OpenFile { via, path: nt.path(r.a, r.b, r.c, shape, gc.max_depth), keep: slot },
+                Op::Seek { h: hh, whence, off },
+                Op::Read { h: hh, len: io_len(r.n.rotate_left(7), cs, gc.max_io_pct) },
+            ];
+        }
+    };
+    vec![one]
 }
+
 
 pub fn raw_op_strategy() -> impl Strategy<Value = RawOp> {
     (any::<u16>(), any::<u16>(), any::<u16>(), any::<u16>(), any::<u16>(), any::<u32>(), any::<i64>()).prop_map(|(kind, a, b, c, d, n, x)| RawOp { kind, a, b, c, d, n, x })
@@ -406,7 +454,7 @@ pub fn case_strategy(gc: GenCfg) -> impl Strategy<Value = Case> {
         let vol = decode_vol(&gc, &rv);
         let nt = NameTable::new(&gc, &extra);
         let cs = vol.cluster_size();
-        let ops = raws.iter().map(|r| decode_op(&gc, &nt, cs, r)).collect();
+        let ops = raws.iter().flat_map(|r| decode_op(&gc, &nt, cs, r)).collect();
         Case { vol, ops }
     })
 }
